@@ -222,13 +222,17 @@ func Main(id, tier string) int {
 	}
 
 	// ---- report what is left --------------------------------------------------
-	os.MkdirAll(filepath.Join(verifDir, "replay"), 0o755)
+	outDir := os.Getenv("VERIF_OUT")
+	if outDir == "" {
+		outDir = verifDir
+	}
+	os.MkdirAll(filepath.Join(outDir, "replay"), 0o755)
 	if chk.Custom != nil {
 		for i, v := range sum.Viol {
 			if i >= 20 {
 				break
 			}
-			path := filepath.Join(verifDir, "replay", fmt.Sprintf("%s-%s-%d.json", id, tier, i))
+			path := filepath.Join(outDir, "replay", fmt.Sprintf("%s-%s-%d.json", id, tier, i))
 			rp := Replay{Property: id, Tier: tier, Scope: v.Scope, Index: v.Index, Kind: v.Kind, Sub: v.Sub, Detail: v.Detail}
 			if raw, ok := sum.Extra["replay:"+strconv.Itoa(i)]; ok {
 				rp.Custom = mustJSON(raw)
@@ -290,7 +294,7 @@ func Main(id, tier string) int {
 			}
 			v := groups[k]
 			_, sc := scopeByName(scopes, v.Scope)
-			path := filepath.Join(verifDir, "replay", fmt.Sprintf("%s-%s-%d.json", id, tier, gi))
+			path := filepath.Join(outDir, "replay", fmt.Sprintf("%s-%s-%d.json", id, tier, gi))
 			rp := Replay{Property: id, Tier: tier, Scope: v.Scope, Index: v.Index, Kind: v.Kind, Sub: v.Sub, Detail: v.Detail}
 			if sc != nil && sc.Show != nil {
 				rp.Input = sc.Show(v.Index)
@@ -369,8 +373,8 @@ func Main(id, tier string) int {
 		"wall_s":      wall,
 		"violations":  nViolReported,
 	}
-	os.MkdirAll(filepath.Join(verifDir, "evidence"), 0o755)
-	if err := os.WriteFile(filepath.Join(verifDir, "evidence", id+".json"), mustJSONIndent(ev), 0o644); err != nil {
+	os.MkdirAll(filepath.Join(outDir, "evidence"), 0o755)
+	if err := os.WriteFile(filepath.Join(outDir, "evidence", id+".json"), mustJSONIndent(ev), 0o644); err != nil {
 		fmt.Fprintln(env.Log, "INTERNAL-ERROR: cannot write evidence:", err)
 		if exit == 0 {
 			exit = 2
@@ -485,6 +489,13 @@ func buildCounterfactual(env *Env, fs []Finding) (string, error) {
 		repo = "/repo"
 	}
 	overlay := map[string]string{}
+	base := map[string]string{} // development overlay (tools/seedtest.sh): the tree being checked
+	if ovf := os.Getenv("VERIF_OVERLAY"); ovf != "" {
+		var o struct{ Replace map[string]string }
+		if b, err := os.ReadFile(ovf); err == nil && json.Unmarshal(b, &o) == nil {
+			base = o.Replace
+		}
+	}
 	for _, f := range fs {
 		patch := filepath.Join(env.VerifDir, f.Patch)
 		pb, err := os.ReadFile(patch)
@@ -497,7 +508,11 @@ func buildCounterfactual(env *Env, fs []Finding) (string, error) {
 				if _, ok := overlay[filepath.Join(repo, name)]; ok {
 					continue
 				}
-				src, err := os.ReadFile(filepath.Join(repo, name))
+				srcPath := filepath.Join(repo, name)
+				if alt, ok := base[srcPath]; ok {
+					srcPath = alt
+				}
+				src, err := os.ReadFile(srcPath)
 				if err != nil {
 					return "", err
 				}
@@ -510,6 +525,11 @@ func buildCounterfactual(env *Env, fs []Finding) (string, error) {
 		}
 		if out, err := runCmd(work, nil, "patch", "-p1", "--no-backup-if-mismatch", "-i", patch); err != nil {
 			return "", fmt.Errorf("patch %s does not apply to the current tree: %s", f.Patch, firstLine(out))
+		}
+	}
+	for k, v := range base {
+		if _, ok := overlay[k]; !ok {
+			overlay[k] = v
 		}
 	}
 	ov := filepath.Join(work, "overlay.json")
